@@ -39,6 +39,24 @@ class GSock(object):
         self.log, self.fail_connect, self.shutdown_raises = log, fail_connect, shutdown_raises
         self.closed = False
         self.established = established     # TCP connection exists (False: fresh or refused socket)
+        self.timeout = None                # blocking mode, as socket.socket() creates it
+
+    # the mode of the socket is state the writers depend on: `Packet._write_buffer` and the flush ignore the count `send`
+    # returns, which is the whole buffer only for a socket in BLOCKING mode (timeout None); with a timeout (or non-blocking)
+    # CPython issues one non-blocking send and a large frame is cut short on the wire (seeded changes C01/C10/C12-r16)
+    def settimeout(self, value):
+        self.log.append(('settimeout', value))
+        self.timeout = value
+
+    def setblocking(self, flag):
+        self.log.append(('setblocking', flag))
+        self.timeout = None if flag else 0.0
+
+    def gettimeout(self):
+        return self.timeout
+
+    def getblocking(self):
+        return self.timeout != 0.0
 
     def connect(self, addr):
         self.log.append('sock.connect')
@@ -674,6 +692,11 @@ class ConnectModel(Unit):
                     note='a fresh empty queue OF ITS OWN (an instance attribute, not one shared through the class), socket and file object, connected = True, and plain framing whatever the earlier '
                          'connection on this object had negotiated (the handshake of the new login goes out uncompressed)')
             E.check('connect.prefers-ipv4', ('socket', socket_mod.AF_INET) in log)
+            sk = d.get('socket')
+            E.check('connect.socket-left-blocking', isinstance(sk, GSock) and sk.timeout is None,
+                    note='the socket the connection keeps is in blocking mode (timeout None): the writers ignore the count send() '
+                         'returns and the reader reads a frame with blocking reads, both of which are whole only in blocking mode; '
+                         'a connect timeout has to be taken off again (timeout left: %r)' % (getattr(sk, 'timeout', '?'),))
             qs = [v for v in d.values() if isinstance(v, deque)]
             E.check('connect.queue-unbounded', len(qs) >= 1 and all(q.maxlen is None for q in qs),
                     note='the outgoing queue is an unbounded FIFO: append never discards a queued packet (a deque with maxlen '
@@ -694,6 +717,8 @@ class ConnectModel(Unit):
         return None
 
     def replay(self, model, label):
+        if label == 'connect.socket-left-blocking':
+            return replay_socket_mode()
         if label in ('connect.success', 'connect.queue-unbounded'):
             return replay_connect_plain()
         rp = replay_lifecycle(label)
@@ -741,6 +766,63 @@ def replay_connect_plain():
         srv.close()
     return dict(confirmed=bad is not None, call='_connect() on a Connection whose earlier login had enabled compression (threshold 256)',
                 observed=bad or 'conforms')
+
+
+def replay_socket_mode():
+    """Live: _connect() to a loopback peer that starts reading late; one 12 MB plugin message is written through the real
+    _write_packet.  All of its bytes must arrive (in blocking mode send() returns only when the whole buffer is handed over)."""
+    import socket, threading, time
+    from minecraft.networking.packets import serverbound
+    srv = socket.socket()
+    srv.bind(('127.0.0.1', 0))
+    srv.listen(2)
+    got = [0]
+
+    def peer():
+        try:
+            s, _ = srv.accept()
+            time.sleep(0.6)
+            s.settimeout(1.5)
+            while True:
+                b = s.recv(1 << 20)
+                if not b:
+                    break
+                got[0] += len(b)
+        except Exception:       # noqa
+            pass
+    t = threading.Thread(target=peer, daemon=True)
+    t.start()
+    bad = None
+    try:
+        c = Connection('127.0.0.1', srv.getsockname()[1], username='u', allowed_versions={757}, handle_exception=False)
+        k, v = native_call(c._connect, timeout=5.0)
+        if k != 'ok':
+            bad = '_connect: %s %r' % (k, v)
+        else:
+            mode = c.socket.gettimeout()
+            p = serverbound.play.PluginMessagePacket(channel='x:y', data=b'\x5a' * (12 << 20))
+            p.context = c.context
+            k, v = native_call(c._write_packet, p, timeout=20.0)
+            try:
+                c.socket.shutdown(socket.SHUT_WR)
+            except Exception:   # noqa
+                pass
+            t.join(25)
+            if k == 'ok' and got[0] < (12 << 20):
+                bad = ('after _connect() the socket has timeout %r; a %d-byte plugin message written to a peer that starts reading '
+                       '0.6 s late put %d bytes on the wire and returned normally: the frame is cut short and every later frame is '
+                       'out of step' % (mode, 12 << 20, got[0]))
+            elif k == 'raise':
+                bad = ('after _connect() the socket has timeout %r; writing a %d-byte plugin message to a slow peer raised %r'
+                       % (mode, 12 << 20, v))
+        try:
+            bounded_call(c.disconnect, immediate=True)
+        except Exception:       # noqa
+            pass
+    finally:
+        srv.close()
+    return dict(confirmed=bad is not None, call='_connect() to a loopback peer that reads late, then one 12 MB plugin message '
+                'through _write_packet', observed=bad or 'conforms')
 
 
 def _own_units(tier):
